@@ -93,6 +93,15 @@ def _extend_crosshair():
 
     oi.ContainmentInterceptor.trace_op = trace_op
 
+    # Second engine setting: no short-circuiting.  CrossHair may replace a call
+    # to a function that carries a contract by a fresh symbolic return value
+    # (reconciled at the end of the path) and forks on whether to do so; in
+    # these harnesses that only multiplies paths (e.g. hash() inside
+    # uuid.UUID.__hash__ during schema look-ups).  Callees are always executed.
+    from crosshair import core as chcore
+    chcore.ShortCircuitingContext.__enter__ = lambda self: None
+    chcore.ShortCircuitingContext.__exit__ = lambda self, *a: False
+
 
 def analyse(spec):
     t0 = time.time()
